@@ -5,6 +5,7 @@ from lib import Case, hx, enc_attrs, enc_els, dec_attrs, doc_case, unhx
 import xmlcanon, scene
 from scene import fmt, dy
 
+DOC_MODEL = True     # every generated document also runs through the composed Coq model of the whole transform
 RULE = ('two referenced boxes (rect/circle/ellipse/box/line/point) in generated arrangements: the 9 sectors, overlapping, '
         'contained, touching at an edge or corner, identical, equal-size aligned and square-diagonal placements (distance ties on '
         'purpose) x endpoint specifications (#id, #id@loc with the 9 names and edge:offset abs/negative/percent, ^, literal '
